@@ -205,7 +205,49 @@ def r3_checkpoint_whole_table(ctx):
                   (narrowed[0].name.split("::")[-1] if narrowed else "the loop does not start from the parameter"), c.loc())
 
 
+def r8_unlink_both_sides(ctx):
+    """taking an entry out of a doubly linked list repairs BOTH sides on every path: the slot that pointed forward to it (its predecessor's `next`, or
+    the list end `header.lru_tail`) and the slot that pointed back to it (its successor's `prev`, or `header.mru_head`). A path that repairs one side
+    only leaves a dangling link that the next checkpoint persists (load_from_disk then refuses the table) or the next removal follows."""
+    rule = "C17.R8"
+    ctx.rule(rule, "LruManager::unlink: every path writes one forward slot (neighbour.next or header.lru_tail) and one backward slot (neighbour.prev or header.mru_head)")
+    bs = [b for b in lru_bodies(ctx) if b.item == "unlink"]
+    if not ctx.anchor(rule, bs, "LruManager::unlink"):
+        return
+    b = bs[0]
+    ctx.saw(b)
+    fwd, bwd = set(), set()
+    for (i, j, st) in b.stmts():
+        if i not in b.live_blocks():
+            continue
+        fs = place_fields(st["p"])
+        if not fs:
+            continue
+        if fs[-2:] == ["header", "lru_tail"] or fs[-1:] == ["lru_tail"]:
+            fwd.add(i)
+        elif fs[-2:] == ["header", "mru_head"] or fs[-1:] == ["mru_head"]:
+            bwd.add(i)
+        elif fs[-1] in ("next", "prev"):
+            # entries[X].next / .prev: a NEIGHBOUR's link when X is not the unlinked entry's own index (the parameter)
+            base = st["p"][0]
+            own = False
+            for (bb_, idx_, kind_, pay_) in b.defs.get(base, []):
+                if kind_ == "call" and len(pay_.args) >= 2 and op_local(pay_.args[1]) is not None:
+                    sl = Slice(b, [op_local(pay_.args[1])], transparent=None)
+                    own = 2 in sl.args or 2 in sl.locals
+            if not own:
+                (fwd if fs[-1] == "next" else bwd).add(i)
+    rets = set(b.return_blocks())
+    for nm, blks, what in (("forward", fwd, "its predecessor's `next` or header.lru_tail"), ("backward", bwd, "its successor's `prev` or header.mru_head")):
+        ok = bool(blks) and not (b.reachable([0], avoid=blks) & rets)
+        ctx.check(ok, rule, [b.id, nm + "-slot"], "every path repairs the %s slot" % nm,
+                  "LruManager::unlink has a path that does not write the %s slot (%s): the neighbour keeps pointing at the entry that was taken out - the next "
+                  "checkpoint stores a table that load_from_disk refuses (corrupt links), and a further removal or eviction follows the dangling link" % (nm, what),
+                  b.loc(), sample={"blocks": sorted(blks)})
+
+
 def run(ctx):
+    r8_unlink_both_sides(ctx)
     # E-drop (rules/dropped.py): no bool result of a function of these modules is thrown away by a caller anywhere in the workspace
     from . import dropped
     dropped.rule_dropped(ctx, "C17.R7", [k for k in ["cascette_formats", "cascette_client_storage", "cascette_cache", "cascette_protocol", "cascette_ribbit"] if k in (CRATES or [])] or CRATES, r"client-storage/src/lru/", floor=5)
@@ -218,6 +260,7 @@ def run(ctx):
     # "checkpoints and reloads" keep the tracker's state only if a checkpoint never deletes the file it has just written (C06.R10)
     from . import c06
     c06.r10_no_self_delete(ctx, c06.CFG)
+    c06.r11_sweep_spares_current(ctx, c06.CFG)
     r3_checkpoint_whole_table(ctx)
     r1_conservation(ctx)
     r2_release_protocol(ctx)
